@@ -166,3 +166,9 @@ func wedgeLoop() {
 		os.Exit(3)
 	}
 }
+
+// QuietWindow is quietWindow for harnesses that need their own no-progress detector (a case
+// that blocks on a sync.Mutex freezes its bubble; a harness running the bubble on a goroutine
+// of its own may call a case wedged only after windows in which the process neither used CPU
+// nor waited for one). It sleeps for d of REAL time: call it outside bubbles only.
+func QuietWindow(d time.Duration) bool { return quietWindow(d) }
